@@ -105,7 +105,7 @@ class BaseGeo(BaseTransform):
             style_kwargs = {}
             for k, v in kwargs.items():
                 if k.startswith("style_"):
-                    style_kwargs[k[6:]] = v
+                    style_kwargs[k[6:]] = deepcopy(v)
                 else:
                     raise TypeError(
                         f"__init__() got an unexpected keyword argument {k!r}"
